@@ -215,6 +215,17 @@ def run(chk, ctx):
     chk.ob('C12.D', 'no state kept between encode calls', not kept,
            '%d abstract runs, %d writes to module- or class-level objects' %
            (runs, len(kept)))
+    from .c15 import scan_tz_calls
+    _n, tzhits = scan_tz_calls(prog, [prog.module('encode'),
+                                      prog.module('base'),
+                                      prog.module('header'),
+                                      prog.module('frame'),
+                                      prog.module('common')])
+    chk.ob('C12.D', 'process time zone', not tzhits,
+           'no call on the encode side consults the process time zone'
+           if not tzhits else 'the bytes depend on the process time zone '
+           '(%s): the same frame encodes differently after TZ changes' %
+           '; '.join('%s at %s' % (w, s_) for s_, w in tzhits[:2]))
     chk.ob('C12.D', 'nondeterministic primitives', not nondet,
            'none reachable' if not nondet else '; '.join(nondet[:3]))
     if unknown:
